@@ -69,6 +69,8 @@ def quiet_logging():
     logging.getLogger().setLevel(logging.CRITICAL)
     for name in ("yowsup", "consonance", "dissononce", "axolotl", "transitions"):
         logging.getLogger(name).setLevel(logging.CRITICAL)
+    # AxolotlManager prints key-generation progress to sys.stdout whenever its own logger level is <= DEBUG (NOTSET is)
+    logging.getLogger("yowsup.axolotl.manager").setLevel(logging.CRITICAL)
     logging.lastResort = logging.NullHandler()
 
 
